@@ -210,6 +210,8 @@ def run_mapswap(inst):
     def scenario():
         eng = E.get_engine()
         co = {n: (eng.fresh(f"y{n}"), eng.fresh(f"x{n}")) for n in graph}
+        if len(graph) == 2:
+            co[1] = (0.0, 0.0)          # small map: first node at the origin (translations are a separate instance), cheaper queries
         loc = (eng.fresh("qy"), eng.fresh("qx"))
         r2 = z3.Real("r_sq")
         eng.assume(r2 > 0)
@@ -270,7 +272,68 @@ def run_mapswap(inst):
     return out
 
 
+def run_boxswap(inst):
+    """K relational on InMemMap.all_nodes(bb) / all_edges(bb): the box listing of a map equals the box listing of the axis-swapped
+    (or translated) map with the box transformed accordingly - pure comparisons, complete enumeration in seconds."""
+    from leuvenmapmatching.map.inmem import InMemMap
+    _, what, tr = inst[:3]
+    budget = inst[3] if len(inst) > 3 else None
+    shims.install()
+    graph = {1: [2], 2: [3], 3: []}
+
+    def transform(eng_or_model, sym):
+        if tr == 'swap':
+            return (lambda p: (p[1], p[0])), (lambda b: (b[1], b[0], b[3], b[2]))
+        oy, ox = (eng_or_model.fresh("off_y"), eng_or_model.fresh("off_x")) if sym else eng_or_model
+        return (lambda p: (p[0] + oy, p[1] + ox)), (lambda b: (b[0] + oy, b[1] + ox, b[2] + oy, b[3] + ox))
+
+    def listing(mp, bb):
+        if what == 'box_nodes':
+            return sorted(k for k, _ in mp.all_nodes(bb=bb))
+        return sorted((r[0], r[2]) for r in mp.all_edges(bb=bb))
+
+    def scenario():
+        eng = E.get_engine()
+        co = {n: (eng.fresh(f"y{n}"), eng.fresh(f"x{n}")) for n in graph}
+        bb = tuple(eng.fresh(f"bb{i}") for i in range(4))
+        eng.assume(z3.And(bb[0].t <= bb[2].t, bb[1].t <= bb[3].t))
+        T, TB = transform(eng, True)
+        out = []
+        for f, fb in ((lambda p: p, lambda b: b), (T, TB)):
+            mp = InMemMap("m", graph={n: (f(co[n]), list(graph[n])) for n in graph}, use_latlon=False)
+            out.append(listing(mp, fb(bb)))
+        return dict(out=out, co=co, bb=bb)
+
+    def claims(eng, v):
+        return [('same_box_listing', z3.BoolVal(v['out'][0] == v['out'][1]))]
+
+    def confirm(eng, model, v, cname):
+        if not isinstance(v, dict):
+            return None
+        cv = lambda x: E.model_value(model, x.t) if isinstance(x, E.Sym) else float(x)
+        co = {n: tuple(cv(c) for c in p) for n, p in v['co'].items()}
+        bb = tuple(cv(c) for c in v['bb'])
+        off = (E.model_value(model, z3.Real("off_y")), E.model_value(model, z3.Real("off_x"))) if tr != 'swap' else None
+        T, TB = transform(off, False)
+        res = []
+        with shims.concrete():
+            for f, fb in ((lambda p: p, lambda b: b), (T, TB)):
+                mp = InMemMap("m", graph={n: (f(co[n]), list(graph[n])) for n in graph}, use_latlon=False)
+                res.append(listing(mp, fb(bb)))
+        if res[0] != res[1]:
+            fn = 'all_nodes' if what == 'box_nodes' else 'all_edges'
+            return dict(desc=f"InMemMap.{fn}(bb={bb}) on {co}: {res[0]}, but after the {tr} of map and box: {res[1]}", kind='mapswap',
+                        coords={str(k): list(c) for k, c in co.items()}, bb=list(bb), transform=tr)
+        return None
+    out = runner.explore(f"inmem {what} under {tr}", runner.lra_engine(5000), scenario, claims, confirm=confirm, budget_s=budget,
+                         witness=lambda eng, v: ['mapswap_path'] + (['box_listing_nonempty'] if v['out'][0] else []))
+    shims.uninstall()
+    return out
+
+
 def run_instance(inst):
+    if inst[0] == 'mapswap' and inst[1].startswith('box_'):
+        return run_boxswap(inst)
     if inst[0] == 'mapswap':
         return run_mapswap(inst)
     if inst[0] == 'kernel':
@@ -387,7 +450,7 @@ def main(tier):
     rep.functions = src_hash(sg.Segment, ms.SimpleMatcher.logprob_trans, md.DistanceMatcher.logprob_trans, de.project,
                              de.distance_point_to_segment, de.distance_segment_to_segment, mb.BaseMatcher._match_states)
     budget = 60 if tier == 'quick' else 600
-    kres = run_instances(run_instance, [i + (budget,) for i in k_instances(tier)] + [('mapswap', w, t, budget) for w in ('nodes', 'edges', 'edges2') for t in ('swap', 'translate')])
+    kres = run_instances(run_instance, [i + (budget,) for i in k_instances(tier)] + [('mapswap', w, t, budget) for w in ('nodes', 'edges', 'edges2', 'box_nodes', 'box_edges') for t in ('swap', 'translate')])
     res = gabs.run_all(rep, run_instance, r_instances(tier), budget, 16 * (80 if tier == 'quick' else 900))
     ch = run_crosshair(tier)
     rep.extra['crosshair_labels'] = ch
